@@ -338,3 +338,8 @@ fn params_progress_contract(ka: usize) {
 // consumes one token, tokens from the ghost queue, result compared with the grammar `element (sep? element)* sep?
 // close`) and do NOT finish: pushing `Expr` values into the result Vec makes CBMC run > 20 min at 7-9 GB even for the
 // single concrete input `[1, 1]` (measured at the end of the build). They stay without a contract (DESIGN.md 3.11).
+
+// Modular harnesses for the remaining productions (parse_if_expr, parse_index_expr, parse_while_expr,
+// parse_return_statement, parse_decl_statement; callees as recorders fed from the ghost queue) were written at the end of
+// the build and do NOT finish either (> 15 min for the four of them, > 6 min for parse_index_expr alone): they stay
+// without a contract (DESIGN.md 3.11).
